@@ -3,7 +3,7 @@ import ast
 
 from ..astx import (calls_in, dotted, norm, src, iter_nodes, assigned_targets, assigned_names,
                     const_value, is_const, parent_chain)
-from ..lib import (cfg_nodes_with_call, node_calls, returns, raises, stmt_assigns_attr, callee_last,
+from ..lib import (call_arg, relation, truth, other, cmp_views, core, holds_region, conditions, eval_conditions, relation_tests, atom_key, expand_condition, mode_mismatch_conditions, cfg_nodes_with_call, node_calls, returns, raises, stmt_assigns_attr, callee_last,
                    is_name, node_roots, guard_region, compare_parts, find_test_nodes)
 from ..linear import ctext
 from ..loader import AnalysisError
@@ -77,10 +77,11 @@ def check_which(c, repo):
     first = [t for t in g.nodes if t.kind == 'test' and 'os.path.dirname(%s)' % fn in norm(t.ast)]
     c.need(len(first) == 1, 'which: explicit-path test not found')
     t0 = first[0]
-    ok = isinstance(t0.ast, ast.BoolOp) and isinstance(t0.ast.op, ast.And) and \
-        sorted(norm(v) for v in t0.ast.values) == sorted(["os.path.dirname(%s) != ''" % fn, 'is_executable_file(%s)' % fn])
-    r0 = [r for r in rets if r in guard_region(g, t0, 'true') and is_name(r.ast.value, fn)]
-    c.check(ok and len(r0) == 1, f, t0.ast, 'a name with a directory part that is executable is returned as given', witness=norm(t0.ast), kind='ast', tag='explicit-path')
+    r0 = [r for r in rets if is_name(r.ast.value, fn)]
+    got = conditions(g, r0[0]) if len(r0) == 1 else None
+    want = {atom_key(ast.parse("os.path.dirname(%s) == ''" % fn, mode='eval').body, False), ('is_executable_file(%s)' % fn, True)}
+    c.check(got == want, f, t0.ast, 'a name with a directory part that is executable is returned as given',
+            witness='returned as given under %s' % sorted(got or []), kind='path', tag='explicit-path')
     anyget = cfg_nodes_with_call(f, lambda k: callee_last(k) == 'get' and k.args and is_const(k.args[0], 'PATH'))
     c.need(len(anyget) == 1, 'which: <env>.get("PATH") not found')
     envuse = [(n, k) for n, k in anyget if is_name(k.func.value, env)]
@@ -136,7 +137,7 @@ def check_which(c, repo):
     # _spawn
     sp = repo.func('pty_spawn:spawn._spawn')
     ws = [k for k in calls_in(sp.node) if callee_last(k) == 'which']
-    ok = len(ws) == 1 and ws[0].args and norm(ws[0].args[0]) == 'self.command' and any(kw.arg == 'env' and norm(kw.value) == 'self.env' for kw in ws[0].keywords)
+    ok = len(ws) == 1 and ws[0].args and norm(ws[0].args[0]) == 'self.command' and call_arg(ws[0], 'env', 1) is not None and norm(call_arg(ws[0], 'env', 1)) == 'self.env'
     c.check(ok, sp, ws[0] if ws else None, 'the command is resolved against the PATH of the requested environment (env=self.env)', witness=norm(ws[0]) if ws else '', kind='ast', tag='spawn-which-env')
 
 
